@@ -341,7 +341,15 @@ impl TextSelection {
         let begin = Cursor::BeginAligned(
             self.begin()
                 + match offset.begin {
-                    Cursor::BeginAligned(x) => x,
+                    Cursor::BeginAligned(x) => {
+                        if x > textlen {
+                            return Err(StamError::CursorOutOfBounds(
+                                offset.begin,
+                                "(absolute_offset)",
+                            ));
+                        }
+                        x
+                    }
                     Cursor::EndAligned(x) => {
                         if x > 0 || textlen < x.abs() as usize {
                             return Err(StamError::CursorOutOfBounds(
@@ -357,7 +365,15 @@ impl TextSelection {
         let end = Cursor::BeginAligned(
             self.begin()
                 + match offset.end {
-                    Cursor::BeginAligned(x) => x,
+                    Cursor::BeginAligned(x) => {
+                        if x > textlen {
+                            return Err(StamError::CursorOutOfBounds(
+                                offset.end,
+                                "(absolute_offset)",
+                            ));
+                        }
+                        x
+                    }
                     Cursor::EndAligned(x) => {
                         if x > 0 || textlen < x.abs() as usize {
                             return Err(StamError::CursorOutOfBounds(
